@@ -211,3 +211,181 @@ Proof. exists [-32768], [32767]. repeat split; try (repeat constructor; unfold i
 Lemma ad32_orig_refuted_lemma : exists a b, a <> b /\ Forall (in_range (-2147483648) 2147483647) a /\
   Forall (in_range (-2147483648) 2147483647) b /\ length a = length b /\ ad_count_orig br32_orig a b = 0.
 Proof. exists [0], [-2147483648]. repeat split; try (repeat constructor; unfold in_range; lia); discriminate. Qed.
+
+(* ------------------------------------------------------------------------------------------ *)
+(** * Object matching *)
+
+Lemma strcmp_eq : forall a b, strcmp a b = Eq <-> a = b.
+Proof.
+  induction a as [|x a IH]; intros [|y b]; simpl; split; intros H; try reflexivity; try discriminate.
+  - destruct (Z.compare_spec x y); try discriminate. subst. f_equal. apply IH. assumption.
+  - injection H as -> ->. rewrite Z.compare_refl. apply IH. reflexivity.
+Qed.
+
+Lemma strcmp_opp : forall a b, strcmp b a = CompOpp (strcmp a b).
+Proof.
+  induction a as [|x a IH]; intros [|y b]; simpl; try reflexivity.
+  rewrite (Z.compare_antisym x y). destruct (x ?= y); simpl; auto.
+Qed.
+
+Lemma strcmp_refl a : strcmp a a = Eq.
+Proof. apply strcmp_eq. reflexivity. Qed.
+
+Lemma cmatch_nil_r l1 : cmatch l1 [] = map Only1 l1.
+Proof. destruct l1; reflexivity. Qed.
+
+Lemma cmatch_cons a l1 b l2 :
+  cmatch (a :: l1) (b :: l2) =
+  match strcmp (o_name a) (o_name b) with
+  | Eq => Both a b :: cmatch l1 l2
+  | Lt => Only1 a :: cmatch l1 (b :: l2)
+  | Gt => Only2 b :: cmatch (a :: l1) l2
+  end.
+Proof. reflexivity. Qed.
+
+Lemma map_mirror_only1 l : map mirror (map Only1 l) = map Only2 l.
+Proof. induction l; simpl; congruence. Qed.
+Lemma map_mirror_only2 l : map mirror (map Only2 l) = map Only1 l.
+Proof. induction l; simpl; congruence. Qed.
+
+Lemma cmatch_mirror : forall l1 l2, map mirror (cmatch l1 l2) = cmatch l2 l1.
+Proof.
+  induction l1 as [|a l1 IH1]; intros l2.
+  - simpl. rewrite cmatch_nil_r. destruct l2; [reflexivity|]. apply map_mirror_only2.
+  - induction l2 as [|b l2 IH2].
+    + rewrite cmatch_nil_r. simpl. f_equal. apply map_mirror_only1.
+    + rewrite !cmatch_cons. rewrite (strcmp_opp (o_name a) (o_name b)).
+      destruct (strcmp (o_name a) (o_name b)); cbn [CompOpp map mirror]; f_equal.
+      * apply IH1.
+      * apply IH1.
+      * apply IH2.
+Qed.
+
+Lemma cmatch_same : forall l, cmatch l l = map (fun o => Both o o) l.
+Proof. induction l as [|a l IH]; [reflexivity|]. rewrite cmatch_cons, strcmp_refl. simpl. f_equal. assumption. Qed.
+
+(** every object of either list appears in the table, paired only with an object of the same name *)
+Lemma cmatch_covers1 : forall l1 l2 o, In o l1 ->
+  In (Only1 o) (cmatch l1 l2) \/ exists b, In b l2 /\ o_name o = o_name b /\ In (Both o b) (cmatch l1 l2).
+Proof.
+  induction l1 as [|a l1 IH1]; intros l2 o Hin; [contradiction|].
+  induction l2 as [|b l2 IH2].
+  - left. rewrite cmatch_nil_r. apply in_map. assumption.
+  - rewrite cmatch_cons. destruct (strcmp (o_name a) (o_name b)) eqn:C.
+    + destruct Hin as [->|Hin].
+      * right. exists b. split; [left; reflexivity|]. split; [apply strcmp_eq; assumption | left; reflexivity].
+      * destruct (IH1 l2 o Hin) as [H|(b' & Hb & Hn & H)]; [left; right; assumption|].
+        right. exists b'. split; [right; assumption|]. split; [assumption | right; assumption].
+    + destruct Hin as [->|Hin]; [left; left; reflexivity|].
+      destruct (IH1 (b :: l2) o Hin) as [H|(b' & Hb & Hn & H)]; [left; right; assumption|].
+      right. exists b'. split; [assumption|]. split; [assumption | right; assumption].
+    + destruct IH2 as [H|(b' & Hb & Hn & H)]; [left; right; assumption|].
+      right. exists b'. split; [right; assumption|]. split; [assumption | right; assumption].
+Qed.
+
+Lemma in_mirror e l : In e l -> In (mirror e) (map mirror l).
+Proof. apply in_map. Qed.
+
+Lemma cmatch_covers2 : forall l1 l2 o, In o l2 ->
+  In (Only2 o) (cmatch l1 l2) \/ exists a, In a l1 /\ o_name o = o_name a /\ In (Both a o) (cmatch l1 l2).
+Proof.
+  intros l1 l2 o Hin. rewrite <- (cmatch_mirror l2 l1).
+  destruct (cmatch_covers1 l2 l1 o Hin) as [H|(a & Ha & Hn & H)].
+  - left. apply (in_mirror _ _ H).
+  - right. exists a. repeat split; try assumption. apply (in_mirror _ _ H).
+Qed.
+
+(** non-negativity of every count *)
+Lemma ad_float_count : forall a b i n pr, fst (ad_float i a b n pr) = n + Z.of_nat (length (spec_diff_positions i a b)).
+Proof.
+  induction a as [|x a IH]; intros [|y b] i n pr; simpl; try lia.
+  destruct (x =? y); rewrite IH; simpl length; lia.
+Qed.
+
+Lemma ad_count_nonneg nt m a b : 0 <= ad_count nt (opts0 m) a b.
+Proof.
+  unfold ad_count, array_diff_m. destruct (ad_kind nt).
+  - rewrite ad_loop_count. lia.
+  - rewrite ad_float_count. lia.
+  - simpl. lia.
+Qed.
+
+Lemma attrs_diff_loop_nonneg : forall a1 a2, 0 <= attrs_diff_loop a1 a2.
+Proof.
+  induction a1 as [|x a1 IH]; intros [|y a2]; simpl; try lia.
+  specialize (IH a2).
+  destruct (negb (a_type x =? a_type y) || negb (Z.of_nat (length (a_vals x)) =? Z.of_nat (length (a_vals y))) || negb (zlist_eqb (a_name x) (a_name y))); [lia|].
+  destruct (zlist_eqb (a_vals x) (a_vals y)); lia.
+Qed.
+
+Lemma diff_sds_m_nonneg t1 d1 v1 a1 t2 d2 v2 a2 : 0 <= diff_sds_m t1 d1 v1 a1 t2 d2 v2 a2.
+Proof.
+  unfold diff_sds_m. destruct (negb (t1 =? t2)); [lia|]. destruct (negb (zlist_eqb d1 d2)); [lia|].
+  destruct v1 as [|x v1]; [lia|]. destruct v2 as [|y v2]; [lia|].
+  pose proof (ad_count_nonneg t1 (zprod d1) (x :: v1) (y :: v2)).
+  unfold sds_attrs_diff. destruct (negb _); [lia|]. pose proof (attrs_diff_loop_nonneg a1 a2). lia.
+Qed.
+Lemma diff_gr_m_nonneg t1 c1 x1 y1 v1 t2 c2 x2 y2 v2 : 0 <= diff_gr_m t1 c1 x1 y1 v1 t2 c2 x2 y2 v2.
+Proof.
+  unfold diff_gr_m. destruct (_ || _); [lia|]. destruct (zlist_eqb v1 v2); [lia|]. apply ad_count_nonneg.
+Qed.
+Lemma diff_vs_m_nonneg n1 f1 v1 n2 f2 v2 : 0 <= diff_vs_m n1 f1 v1 n2 f2 v2.
+Proof. unfold diff_vs_m. destruct (_ || _); [lia|]. destruct (zlist_eqb v1 v2); lia. Qed.
+
+Ltac c19_cases :=
+  repeat match goal with |- context [match ?x with _ => _ end] => destruct x end.
+
+Lemma diff_obj_nonneg o1 o2 : 0 <= diff_obj o1 o2.
+Proof.
+  unfold diff_obj. destruct (zassoc (obj_tag o1) diff_switch) as [z|]; [|lia].
+  destruct (o_body o1), (o_body o2); c19_cases;
+    first [lia | apply diff_sds_m_nonneg | apply diff_gr_m_nonneg | apply diff_vs_m_nonneg].
+Qed.
+
+Lemma entry_cost_nonneg e : 0 <= entry_cost e.
+Proof. destruct e; simpl; try lia. apply diff_obj_nonneg. Qed.
+
+Lemma zsum_nonneg l : Forall (fun x => 0 <= x) l -> 0 <= zsum l.
+Proof. induction 1; simpl; lia. Qed.
+
+Lemma zsum_in_le l x : Forall (fun x => 0 <= x) l -> In x l -> x <= zsum l.
+Proof.
+  induction 1 as [|y l Hy Hl IH]; intros Hin; [contradiction|]. simpl.
+  pose proof (zsum_nonneg l Hl). destruct Hin as [->|Hin]; [lia|]. specialize (IH Hin). lia.
+Qed.
+
+Lemma costs_nonneg l : Forall (fun x => 0 <= x) (map entry_cost l).
+Proof. apply Forall_forall. intros x Hx. apply in_map_iff in Hx. destruct Hx as (e & <- & _). apply entry_cost_nonneg. Qed.
+
+Lemma match_m_nonneg l1 l2 : 0 <= match_m l1 l2.
+Proof. apply zsum_nonneg, costs_nonneg. Qed.
+
+Lemma match_flags_removed_lemma : forall l1 l2 o, In o l1 -> ~ In (o_name o) (map o_name l2) ->
+  In (Only1 o) (cmatch l1 l2) /\ 1 <= match_m l1 l2.
+Proof.
+  intros l1 l2 o Hin Hno.
+  assert (H : In (Only1 o) (cmatch l1 l2)).
+  { destruct (cmatch_covers1 l1 l2 o Hin) as [H|(b & Hb & Hn & _)]; [assumption|].
+    exfalso. apply Hno. rewrite Hn. apply in_map. assumption. }
+  split; [assumption|]. unfold match_m.
+  apply (zsum_in_le _ 1 (costs_nonneg _)). change 1 with (entry_cost (Only1 o)). apply in_map. assumption.
+Qed.
+
+Lemma match_flags_added_lemma : forall l1 l2 o, In o l2 -> ~ In (o_name o) (map o_name l1) ->
+  In (Only2 o) (cmatch l1 l2) /\ 1 <= match_m l1 l2.
+Proof.
+  intros l1 l2 o Hin Hno.
+  assert (H : In (Only2 o) (cmatch l1 l2)).
+  { destruct (cmatch_covers2 l1 l2 o Hin) as [H|(b & Hb & Hn & _)]; [assumption|].
+    exfalso. apply Hno. rewrite Hn. apply in_map. assumption. }
+  split; [assumption|]. unfold match_m.
+  apply (zsum_in_le _ 1 (costs_nonneg _)). change 1 with (entry_cost (Only2 o)). apply in_map. assumption.
+Qed.
+
+(** before the repair an object present in one file only went unnoticed *)
+Lemma match_orig_refuted_lemma : exists l1 l2 o, In o l2 /\ ~ In (o_name o) (map o_name l1) /\ match_orig l1 l2 = 0.
+Proof.
+  exists [mkobj [97] BVg], [mkobj [97] BVg; mkobj [98] (BSds 24 [2] [1; 2] [])], (mkobj [98] (BSds 24 [2] [1; 2] [])).
+  split; [right; left; reflexivity|]. split; [|reflexivity].
+  simpl. intros [H|[]]. discriminate.
+Qed.
